@@ -21,7 +21,7 @@ static const size_t STACK_SIZE = 256 * 1024;
 static char* const STACK_BASE = (char*)0x100000000000ULL;
 
 const char* kindName(int k) {
-  static const char* n[] = {"preempt","blocknext","spurious_wake","wake_order","eintr","send","recv","epoll","conn","dns","fs","pipe","child","peer","harness","harness2"};
+  static const char* n[] = {"preempt","blocknext","spurious_wake","wake_order","eintr","send","recv","epoll","conn","dns","fs","pipe","child","peer","harness","harness2","thread_create_failure"};
   return (k >= 0 && k < K_NKINDS) ? n[k] : "?";
 }
 
@@ -153,8 +153,10 @@ uint64_t stepNo() { return g.steps; }
 static int64_t dilationOf(uint64_t run) {
   uint64_t q = (uint64_t)g.cfg.fair_quantum; if (q == 0 || run < 2 * q) return 0;
   int64_t d = 0;
-  for (int k = 1; k <= 13; ++k) { uint64_t lo = q << k, hi = (k == 13) ? ~0ULL : (q << (k + 1)); if (run <= lo) break; uint64_t n = (run < hi ? run : hi) - lo; d += (int64_t)n * 50 * (((int64_t)1 << k) - 1); }
-  return d;
+  for (int k = 1; k <= 13; ++k) { uint64_t lo = q << k, hi = (k == 13) ? ~0ULL : (q << (k + 1)); if (run <= lo) break; uint64_t n = (run < hi ? run : hi) - lo; d += (int64_t)n * 50 * (((int64_t)1 << k) - 1); if (d >= g.cfg.dilation_cap_ns) return g.cfg.dilation_cap_ns; }
+  // The total extra time of one uninterrupted run is capped: a task that never blocks because time-driven work is always due (an event loop
+  // whose timers fell behind) must be able to catch up - uncapped, every step would make more work due than it does (seen: 1 ms timers, C14).
+  return d < g.cfg.dilation_cap_ns ? d : g.cfg.dilation_cap_ns;
 }
 int64_t nowNs() {
   int64_t t = g.time_base + (int64_t)g.steps * 50 + g.dilation_closed;
